@@ -399,4 +399,41 @@ func (s *Sim) useAfterRegistration(tmax int, op *Op) {
 	if p {
 		s.violate("C18", "reg.capacity", "after_fill/use", true, "after registering further component types (%d registered), a mapper created before cannot access a new entity: %v", s.registered(), val)
 	}
+	if s.fatal {
+		return
+	}
+	// Entities in tables that are older than the registration answer questions about the
+	// latest registered ID (the highest one, possibly in another mask word than all IDs the
+	// table was created with).
+	var hi ecs.ID
+	for i, id := range ecs.ComponentIDs(s.W) {
+		if i == 0 || id.Index() > hi.Index() {
+			hi = id
+		}
+	}
+	hiT := -1
+	for t := 0; t < NumTypes; t++ {
+		if s.ids[t] == hi {
+			hiT = t
+		}
+	}
+	p, val = s.call(func() {
+		u := s.W.Unsafe()
+		for k := 0; k < 8; k++ {
+			x := s.M.PickLive(abs(op.N) + k*7)
+			if x == nil {
+				return
+			}
+			want := hiT >= 0 && x.Has(hiT)
+			if got := u.Has(x.H, hi); got != want {
+				panic(fmt.Sprintf("Unsafe.Has(%v, ID %d) = %v, expected %v", x.H, hi.Index(), got, want))
+			}
+			if got := u.HasUnchecked(x.H, hi); got != want {
+				panic(fmt.Sprintf("Unsafe.HasUnchecked(%v, ID %d) = %v, expected %v", x.H, hi.Index(), got, want))
+			}
+		}
+	})
+	if p {
+		s.violate("C18", "reg.capacity", "after_fill/has", true, "after registering further component types (%d registered), asking an older entity for the highest ID failed: %v", s.registered(), val)
+	}
 }
